@@ -60,6 +60,25 @@ def getitem(I, obj, idx):
         raise exc("TypeError")
     if obj.__class__.__name__ == "STable":
         return obj        # a column of the table behaves like the table for astype/assignment bookkeeping
+    if obj.__class__.__name__ == "_Loc":
+        from .libpd import table_column
+        t = obj.table
+        r_, c_ = idx.items
+        if isinstance(r_, SSlice):
+            return table_column(I, t, c_)
+        col = table_column(I, t, c_)
+        n = len(t.rows)
+        if isinstance(col, SSeries):
+            return col.values.fn(r_)
+        # object column (e.g. params): case split on the symbolic row
+        if not is_sym(r_):
+            return col.items[r_]
+        for j in range(n):
+            if I.ctx.branch(to_z3(r_) == j, f"row={j}"):
+                return col.items[j]
+        raise PathEnd("row index")
+    if obj.__class__.__name__ == "SRow":
+        return obj.items[idx]
     if isinstance(obj, Opaque) and getattr(obj, "getitem", None):
         return obj.getitem(I, obj, idx)
     if obj is None or is_numlike(obj):
@@ -243,6 +262,12 @@ def setitem(I, obj, idx, v, env, target):
         return obj.setitem(I, obj, idx, v)
     if obj.__class__.__name__ == "STable":
         return            # column assignment: number of rows unchanged
+    if obj.__class__.__name__ == "SRow":
+        obj.items[idx] = v
+        return
+    if obj.__class__.__name__ == "SRowsTable":
+        obj.extra[idx] = v
+        return
     raise Undecided(f"subscript store into {obj!r}")
 
 
